@@ -454,15 +454,21 @@ func TestVerifC32(t *testing.T) {
 			}
 			if tombstoned && len(aliveA[id]) == 0 {
 				key := "not-untombstoned"
-				gone := true
-				for _, f := range before.index {
+				// the shard getTombstonedRepos selects: latest commit date, later file on ties
+				var best *vfC32File
+				var bestDate int64
+				for i := range before.index {
+					f := &before.index[i]
+					if !f.compound {
+						continue
+					}
 					for _, e := range f.entries {
-						if f.compound && e.id == id && e.tomb && vfC32Find(after1.index, f.base) != nil {
-							gone = false
+						if e.id == id && e.tomb && (best == nil || !(bestDate > e.date)) {
+							best, bestDate = f, e.date
 						}
 					}
 				}
-				if gone {
+				if best != nil && vfC32Find(after1.index, best.base) == nil {
 					key = fmt.Sprintf("not-untombstoned:compound-shard-deleted:shardMerging=%v", sm)
 				}
 				vfOracleFail(key, fmt.Sprintf("assigned repository %d is only tombstoned in the index but was not revived", id), replay)
@@ -517,8 +523,17 @@ func TestVerifC32(t *testing.T) {
 			}
 		}
 		if fmt.Sprint(after1) != fmt.Sprint(after2) {
+			compoundDeleted := false
+			for _, f := range before.index {
+				if f.compound && vfC32Find(after1.index, f.base) == nil {
+					compoundDeleted = true
+				}
+			}
 			if anyRenamed {
 				classes = append(classes, "second-run-differs-after-rename-purge")
+			} else if compoundDeleted {
+				// downstream of the compound-shard deletion: UnsetTombstone hit the deleted shard, the next run revives another copy
+				vfOracleFail(fmt.Sprintf("not-idempotent:compound-shard-deleted:shardMerging=%v", sm), "a second cleanup with the same arguments changed the directory (first run deleted a compound shard)", replay)
 			} else {
 				vfOracleFail("not-idempotent", "a second cleanup with the same arguments changed the directory", replay)
 			}
